@@ -260,6 +260,19 @@ pub fn module_items() -> Vec<Item> {
         "@use \"sass:meta\";\n@include meta.load-css(\"lib\", $with: (c: 9));\n",
         &[("lib.scss", "$c: 1 !default;\nx { y: $c; }\n")],
     );
+    // siblings: different inputs over the same files (same partial reached from different places)
+    for (tag, part) in [
+        ("undef", "x { y: $undefined-in-part; }\n"),
+        ("error", "@error \"boom from part\";\n"),
+        ("ok", "$from-part: 1;\nx { y: part; }\n"),
+    ] {
+        let files = [("_epart.scss", part)];
+        add(&format!("sib:{tag}:line1"), "@import \"epart\";\na { b: c; }\n", &files);
+        add(&format!("sib:{tag}:line4"), "a { b: c; }\n\n\n@import \"epart\";\n", &files);
+        add(&format!("sib:{tag}:nested"), "a { b: c; }\nr {\n  @import \"epart\";\n}\n", &files);
+        add(&format!("sib:{tag}:use"), "@use \"epart\";\na { b: c; }\n", &files);
+        add(&format!("sib:{tag}:loadcss"), "@use \"sass:meta\";\na { b: c; }\n@include meta.load-css(\"epart\");\n", &files);
+    }
     add(
         "two-users",
         "@use \"a\";\n@use \"b\";\nr { a: a.$v; b: b.$w; }\n",
@@ -320,6 +333,24 @@ pub fn twin_with_other_format(it: &Item, rng: &mut Rng) -> Item {
     }
 }
 
+/// Another input over the same files as `it` (a "sibling"), if the pool has one.
+pub fn sibling_of(it: &Item, rng: &mut Rng) -> Option<Item> {
+    if !it.name.starts_with("sib:") {
+        return None;
+    }
+    let sibs: Vec<Item> = module_items()
+        .into_iter()
+        .filter(|o| o.name.starts_with("sib:") && o.files == it.files && o.input != it.input)
+        .collect();
+    if sibs.is_empty() {
+        None
+    } else {
+        let mut s = sibs[rng.usize(sibs.len())].clone();
+        s.fmt = it.fmt;
+        Some(s)
+    }
+}
+
 /// Draw one workload item.
 pub fn draw_item(rng: &mut Rng) -> Item {
     let mut it = match rng.below(10) {
@@ -337,7 +368,7 @@ pub fn draw_item(rng: &mut Rng) -> Item {
                 Item::simple(&n, &s)
             }
         }
-        5 => {
+        5 | 6 => {
             let m = module_items();
             m[rng.usize(m.len())].clone()
         }
